@@ -236,6 +236,20 @@ def build_model_driver(timeout=900):
     ex = os.path.join(COQ, "extract")
     os.makedirs(ex, exist_ok=True)
     gen_extract_v()
+    # the model driver is a function of the Coq sources (incl. regenerated
+    # gen/*.v) and the OCaml glue only: rebuild when any of them changed
+    h = hashlib.sha1()
+    for f in sorted(glob.glob(os.path.join(COQ, "theories", "*.v")) + glob.glob(os.path.join(COQ, "gen", "*.v"))
+                    + glob.glob(os.path.join(VERIF, "harness", "ml", "*.ml")) + [os.path.join(ex, "Extract.v")]):
+        if os.path.basename(f).startswith("Properties_"):
+            continue
+        h.update(f.encode())
+        h.update(open(f, "rb").read())
+    stamp = os.path.join(ex, "mdrv.stamp")
+    if os.path.exists(os.path.join(ex, "mdrv")) and os.path.exists(stamp) and open(stamp).read() == h.hexdigest():
+        return os.path.join(ex, "mdrv")
+    if os.path.exists(stamp):
+        os.unlink(stamp)
     rc, out, err = run(["coqc", "-Q", "../theories", "VV", "-Q", "../gen", "VVgen",
                         "-w", "-all", "Extract.v"], cwd=ex, timeout=timeout)
     if rc != 0:
@@ -252,6 +266,7 @@ def build_model_driver(timeout=900):
                             "model.mli", "model.ml"] + order + ["-o", "mdrv"], cwd=ex, timeout=timeout)
     if rc != 0:
         raise RuntimeError("model driver build failed: " + (out + err)[-3000:])
+    open(stamp, "w").write(h.hexdigest())
     return os.path.join(ex, "mdrv")
 
 
@@ -723,9 +738,12 @@ class Check:
         if self.tier == "thorough":
             configs = list(getattr(spec, "CONFIGS_THOROUGH", ["pinned", "O0", "asan"]))
         drivers = {}
+        from concurrent.futures import ThreadPoolExecutor
+        with ThreadPoolExecutor(max_workers=4) as pool:
+            futs = {cfgname: pool.submit(build_c_driver, cfgname, getattr(spec, "EXTRA_CFLAGS", "")) for cfgname in configs}
         for cfgname in configs:
             try:
-                b, d = build_c_driver(cfgname, getattr(spec, "EXTRA_CFLAGS", ""))
+                b, d = futs[cfgname].result()
                 self.tmpdirs.append(d)
                 drivers[cfgname] = b
             except RuntimeError as e:
